@@ -1,12 +1,13 @@
 import HickoryVerif.Drv.Proto
 import HickoryVerif.Model.AuthZone
+import HickoryVerif.Model.AuthZoneDev
 
 /-!
 Case line (see `harness/src/props/c10.rs`):  `q <mode> <origin> <zone> <qname> <qtype> <do>`
 answer: `<RCODE> aa=<0|1> an=<rrsets> ns=<rrsets> ar=<rrsets>`.
 -/
 namespace HickoryVerif.Drv.C10
-open HickoryVerif HickoryVerif.Drv HickoryVerif.AuthZone
+open HickoryVerif HickoryVerif.Drv HickoryVerif.AuthZone HickoryVerif.AuthZone.Dev HickoryVerif.Spec.Rfc1034
 
 abbrev State := Unit
 def init : State := ()
@@ -73,8 +74,51 @@ def showResponse (r : Response) : String :=
   showRcode r.rcode ++ " aa=" ++ showBool r.aa ++ " an=" ++ showSection r.answers ++
     " ns=" ++ showSection r.authority ++ " ar=" ++ showSection r.additional
 
+/-- classes of `Model/AuthZoneDev.lean` that hold of the case, in a fixed order -/
+def classesOf (z : Zone) (o : LName) (q : Query) : List String :=
+  let t := effType z q
+  let vs := visitedOf z o q
+  let per (f : Zone → LName → LName → Nat → Bool) := vs.any fun n => f z o n t
+  (if per existingNoBlock then ["existing-name-does-not-block"] else []) ++
+  (if per climbs then ["climbs-past-closest-encloser"] else []) ++
+  (if per notSelfBlocking then ["wildcard-not-self-blocking"] else []) ++
+  (if nodataAsNx z o q.name t then ["nodata-as-nxdomain"] else []) ++
+  (if per wildcardQname then ["wildcard-qname-not-expanded"] else []) ++
+  (if NestedCut z o q then ["nested-cut"] else []) ++
+  (if referralAA z o q then ["referral-aa"] else []) ++
+  (if nsAnyBelowCut z o q then ["ns-any-below-cut"] else []) ++
+  (if soaBelowCut z o q then ["soa-below-cut"] else []) ++
+  (if cnameIntoCut z o q then ["cname-into-cut"] else []) ++
+  (if anyNotAtOwner z q then ["any-not-at-owner"] else [])
+
+/-- the statement of `C10.impl_eq_spec_partial` evaluated on the case -/
+def thmHolds (z : Zone) (o : LName) (q : Query) : Bool :=
+  let hyps := zoneWF z o && !WildcardGap z o q && !NestedCut z o q && !nsAnyBelowCut z o q &&
+    !soaBelowCut z o q && !cnameIntoCut z o q && !anyNotAtOwner z q
+  !hyps || conformsModAA (answerImpl z o q) (answerSpec MAX_CNAME_DEPTH z o q)
+
 def handle (toks : List String) : Option String :=
   match toks with
+  | ["dev", "u", origin, zone, qname, qtype, _do] => do
+    let o ← parseLName origin
+    let z ← parseZone zone
+    let qn ← parseLName qname
+    let qt ← parseTy qtype
+    let q : Query := { name := lowerName qn, type := qt }
+    let cs := classesOf z o q
+    pure ("wf=" ++ showBool (zoneWF z o) ++ " classes=" ++ (if cs.isEmpty then "-" else ",".intercalate cs) ++
+      " thm=" ++ (if thmHolds z o q then "ok" else "FAIL"))
+  | ["devx", "u", origin, zone, qname, qtype, _do] => do
+    -- debugging aid (not used by the harness): classes + whether the model conforms to the spec
+    let o ← parseLName origin
+    let z ← parseZone zone
+    let qn ← parseLName qname
+    let qt ← parseTy qtype
+    let q : Query := { name := lowerName qn, type := qt }
+    let cs := classesOf z o q
+    pure ("wf=" ++ showBool (zoneWF z o) ++ " classes=" ++ (if cs.isEmpty then "-" else ",".intercalate cs) ++
+      " conf=" ++ showBool (conformsModAA (answerImpl z o q) (answerSpec MAX_CNAME_DEPTH z o q)) ++
+      " aa=" ++ showBool ((answerImpl z o q).aa == (answerSpec MAX_CNAME_DEPTH z o q).aa))
   | ["q", "u", origin, zone, qname, qtype, _do] => do
     let origin ← parseLName origin
     let z ← parseZone zone
